@@ -40,13 +40,14 @@ func observation(c *Case, res *result) string {
 	var b strings.Builder
 	fmt.Fprintf(&b, "calls=%d wrong=%v", res.cap.calls, res.cap.wrong)
 	if res.panicked != "" {
-		fmt.Fprintf(&b, " client-panic=%s", res.panicked)
+		fmt.Fprintf(&b, " client-panic")
 	}
 	if res.w != nil {
-		fmt.Fprintf(&b, " status=%d server-panic=%q wire-error=%q", res.w.status, res.w.serverErr, res.w.wireErr)
+		// (whether, not how: the wording of errors is not part of an observation)
+		fmt.Fprintf(&b, " status=%d server-panic=%v wire-error=%v", res.w.status, res.w.serverErr != "", res.w.wireErr != "")
 	}
 	if res.submitErr != nil {
-		fmt.Fprintf(&b, " submit-error=%q", res.submitErr.Error())
+		fmt.Fprintf(&b, " submit-error")
 	}
 	names := make([]string, 0, len(res.cap.params))
 	for k := range res.cap.params {
@@ -69,7 +70,7 @@ func observation(c *Case, res *result) string {
 		fmt.Fprintf(&b, " file[%s]=(%s,%d bytes,%x,%q)", quote(k), quote(f.name), len(f.content), digest(f.content), f.err)
 	}
 	if res.perr != nil {
-		fmt.Fprintf(&b, " produce-error=%q", res.perr.Error())
+		fmt.Fprintf(&b, " produce-error")
 	}
 	fmt.Fprintf(&b, " reader=%v code=%d", res.seen.called, res.seen.code)
 	hs := make([]string, 0, len(res.seen.headers))
@@ -80,7 +81,10 @@ func observation(c *Case, res *result) string {
 	for _, k := range hs {
 		fmt.Fprintf(&b, " header[%s]=%s", k, show(res.seen.headers[k]))
 	}
-	fmt.Fprintf(&b, " body=(%d bytes,%x) decoded=%s decode-error=%q", len(res.seen.raw), digest(res.seen.raw), show(res.seen.body), res.seen.bodyErr)
+	if res.cap.calls == 1 && c.Resp.Mode != "error" {
+		// the body is the handler's; a body the middleware or the error responder words is not compared
+		fmt.Fprintf(&b, " body=(%d bytes,%x) decoded=%s decode-error=%v", len(res.seen.raw), digest(res.seen.raw), show(res.seen.body), res.seen.bodyErr != "")
+	}
 	return b.String()
 }
 
